@@ -27,6 +27,8 @@ BOUND = {
     "quick": "all subsets of size <=2 of the full 99-cell grid x 3 default languages x {plain, ${ref}}; all subsets of size 3 of the 57-cell core grid x 3 default languages",
     "thorough": "all subsets of size <=3 of the full grid x 3 default languages; all subsets of size 4 of the core grid x 3 default languages",
 }
+# as-built additions to the bound (kept next to BOUND so that the evidence reports them)
+BOUND = {k: v + "; plus: " + 'both left-to-right column orders; language tags differing only in case (core grid, subsets <=2 / <=3); noAppErrorString cells; search() select; label-less choices; keyword-bearing element names; OSM tags with (un)translated labels' for k, v in BOUND.items()}
 DEFLANGS = [None, "en", "zz"]
 
 
